@@ -86,7 +86,7 @@ fn op_strategy() -> impl Strategy<Value = Op> {
     ]
 }
 
-fn case_strategy() -> BoxedStrategy<Case> {
+pub fn case_strategy() -> BoxedStrategy<Case> {
     (0u8..4, proptest::collection::vec(op_strategy(), 1..vh_core::depth(60, 220)))
         .prop_map(|(node, ops)| Case { node, ops })
         .boxed()
@@ -190,7 +190,7 @@ struct Monitor {
     farthest: Option<U256>,
 }
 
-fn check(case: &Case, ctx: &mut Ctx) {
+pub fn check(case: &Case, ctx: &mut Ctx) {
     let mut w = World::new(case.node);
     let mut m = Monitor { now: 0, flights: HashMap::new(), local: HashMap::new(), range: None, farthest: None };
     let (mut holders_seen, mut completions, mut range_or_full, mut aged_across) = (BTreeSet::new(), 0, false, false);
@@ -605,5 +605,6 @@ pub fn run(cfg: RunCfg) {
         "non-trivial: something queued when the advertising starts; target = missing, in-range, not beyond farthest",
         progress_strategy, check_progress
     );
+    vh_core::fuzz_section!(rep, "history", case_strategy, check, "sec_store", "store", 400_000, 240, 8);
     rep.finish();
 }
